@@ -181,6 +181,11 @@ func cmdCheck(args []string) int {
 		if e.TimeoutS > 0 {
 			timeout = e.TimeoutS
 		}
+		if c := os.Getenv("VERIF_TIME_CAP_S"); c != "" { // calibration runs only
+			if n, err := strconv.Atoi(c); err == nil && n > 0 && n < timeout {
+				timeout = n
+			}
+		}
 		es := eng.explore(fn, e.MaxPaths, time.Now().Add(time.Duration(timeout)*time.Second))
 		all = append(all, es)
 		fmt.Printf("[%s] %s: paths=%d completed=%d pruned=%d infeasible=%d decisions=%d queries=%d (sat %d unsat %d unknown %d cachehits %d) solver=%.1fs wall=%.1fs violations=%d\n",
